@@ -91,6 +91,10 @@ def generate(rng, tier):
                 body = ("\u5841\u4100" if codec.endswith("le") else "\u4100\u5841").encode(codec)
                 if rng.random() < 0.4:
                     body = "A".encode(codec) + body
+            if enc == "UTF-8" and rng.random() < 0.4:
+                # a terminator that is ONE character of two or three code units, after text of any byte length
+                tch = rng.choice(["\u00a7", "\u20ac"]).encode("utf-8")
+                body = rng.choice(["a", "abc", "ab\u00e9", "abcd\u00e9x", ""]).encode("utf-8")
             term = hx(tch)
             payload = body + (tch if rng.random() < 0.85 else b"") + rng.randbytes(rng.randrange(0, 3))
         elif delim == "leading":
